@@ -5,7 +5,6 @@ import (
 	"fmt"
 	"sort"
 	"strings"
-	"time"
 
 	"github.com/anishathalye/porcupine"
 	"github.com/iotaledger/hive.go/kvstore"
